@@ -18,8 +18,7 @@ spec -> code
   (ii)  TLC (MC_C12M) builds every one-symbol mutation (insert/delete/replace at every position)
         of valid tag texts - layouts Text(args, style) exported by MC_C02 - same three channels.
   Verdict: every outcome must be in ParseOutcomes = {ok, TemplateSyntaxError}; another exception
-  class, a timeout (reproduced with the budget doubled) or MemoryError under RLIMIT_AS is a
-  violation.
+  class, exceeding the time bound (see below) or MemoryError under RLIMIT_AS is a violation.
   (iii) round trip: for every valid text of the MC_C02 export, the real
         " ".join(TagAttr.serialize()) is re-parsed: equal AST, and the probe tag fed with the
         serialisation receives the same values as with the original text.
@@ -27,12 +26,35 @@ spec -> code
         a^n b^n at n, 2n, 4n: interpreter *line events* (sys.monitoring, deterministic, no
         wall clock) - fitted exponent log4(c(4n)/c(n)) > 2.5 is a violation.  (Time spent inside
         C code - the `re` engine - is invisible to this measure.)
+  (v)   pumped inputs (specs/AdversarialInputs.tla, MC_C12P): TLC builds every (pre, u, suf)
+        with Len(pre)+Len(u)+Len(suf) <= T over both alphabets and a repetition count k (quick
+        T=3, k=48); the text pre . u^k . suf - opened strings / brackets / translations /
+        comments with a unit repeated far beyond the exhaustive bound, closed, left
+        unterminated (suf empty) or failing at the very end - goes through the same channels.
+  (vi)  library tags (MC_C12T): every tag the library registers (component, slot, fill, provide,
+        html_attrs, component_css/js_dependencies, a @template_tag tag, a shorthand-formatter
+        component) followed by every sequence of <= N words of LeadWords (quoted names,
+        variables, keywords, `name=`, flags, spreads, literals, garbage: the required leading
+        arguments present, missing or replaced), self-closing / block / left open, at top level
+        and inside a component body; TLC exports the source, the harness calls Template(src).
+  Time bound: every parser run of every set happens under a CPU-time budget of the worker
+  process (ITIMER_PROF; wall time and machine load do not matter) of
+  CpuBudgetMs(characters) = 1000 ms + n^2/1000 ms (AdversarialInputs.tla; the unchanged scanners
+  need about 0.02 ms per character, the bound is >= 90 x that at every generated length).  A run
+  that exceeds it is repeated with the budget doubled and reported as `hang` if it exceeds that
+  too.  The workers are supervised: a parse that cannot be interrupted (C code that never
+  checks signals) is killed by the parent on the CPU time in /proc/<pid>/stat and reported; after
+  HANG_CAP hangs in one input set the rest of the set is skipped (the run must finish).
 code -> spec: seeded random strings of 6..40 symbols over both alphabets, one-symbol mutations
-  of random deep valid texts, and the growth measurements are recorded and validated by TLC
-  against Trace_C12 (input belongs to the modelled space / is Mutated(Text(args, style), m);
-  outcomes in ParseOutcomes; c(4n) <= 32 c(n)); round-trip observations of random deep valid
-  texts are validated against Trace_C02 (what the tag receives from the serialisation is
-  Denote(args) whenever that holds for the original text).
+  of random deep valid texts, random pumped inputs (pre, u, suf up to 4 symbols, k = 20..60),
+  random substrings of random deep valid texts pumped in place (whole or cut off behind the
+  pumped part), library tags with 3..5 leading words, the slowest inputs of every exhaustive
+  set and the growth measurements are recorded with outcomes and CPU milliseconds and
+  validated by TLC against Trace_C12 (input belongs to the modelled space / is
+  Mutated(Text(args, style), m) / PumpText(..) / PumpSub(Text(args, style), ..) / LibSource(..);
+  outcomes in ParseOutcomes; cpu <= CpuBudgetMs(Chars(syms)); c(4n) <= 32 c(n)); round-trip
+  observations of random deep valid texts are validated against Trace_C02 (what the tag
+  receives from the serialisation is Denote(args) whenever that holds for the original text).
 
 Not demanded (unspecified): which strings are accepted; round trip of strings outside the
 documented syntax that happen to parse; the exact text of the serialisation.
@@ -42,30 +64,41 @@ from __future__ import annotations
 import json
 import math
 import multiprocessing as mp
+import multiprocessing.connection as mpc
+import os
 import random
 import re
 import resource
 import signal
 import sys
+import time
+from collections import deque
 from pathlib import Path
 from typing import Any, Callable, Dict, List, Optional, Tuple
 
 from . import c02, tlc
-from .core import Check, MachineryError, workdir
+from .core import SPECS, Check, MachineryError, workdir
 
 PID = "C12"
 COMP = "vf_probe_c12"
-BUDGET_S = 5.0          # per input; the median input takes < 1 ms
+GROWTH_BUDGET_S = 60.0  # fixed CPU budget of a growth measurement (line callbacks slow the parse ~50x)
 MEM_LIMIT = 4 << 30
+HANG_CAP = 6            # hangs after which the rest of an input set is skipped
 
 RULE = ("every state of TLC's BFS over AppendSym (all strings up to the length bound over the tag and the template "
-        "alphabet) and every MC_C12M mutant of sampled MC_C02 layouts is fed to parse_tag / Template; non-trivial = "
-        "at least 2 symbols; distinct by construction (distinct TLC states); random longer strings, mutants of deep "
-        "texts and growth measurements validated by Trace_C12, round trips by Trace_C02")
+        "alphabet), every MC_C12M mutant of sampled MC_C02 layouts, every pumped case of MC_C12P (pre . u^k . suf, all "
+        "(pre, u, suf) up to the total bound, distinct texts) and every MC_C12T library-tag source (every tag x every word "
+        "sequence up to the bound x form x wrap) is fed to parse_tag / Template under the CPU budget CpuBudgetMs; "
+        "non-trivial = at least 2 symbols; distinct by construction (distinct TLC states / distinct texts); random longer "
+        "strings, mutants and pumped substrings of deep texts, random pumped inputs, longer library tags, the slowest "
+        "inputs of every set and growth measurements validated by Trace_C12, round trips by Trace_C02")
 ASSUMPTIONS = [
     "termination, memory and growth are observed on the real code, not modelled (exploration)",
-    "growth is measured in interpreter line events: work done inside C extensions (re) is not counted",
-    "a timeout counts as a hang only if it reproduces with the budget doubled",
+    "growth is measured in interpreter line events: work done inside C extensions (re) is not counted there; "
+    "it is counted by the CPU-time bound CpuBudgetMs (process CPU time of the forked worker, not wall time)",
+    "exceeding the CPU budget counts as a hang only if it reproduces with the budget doubled",
+    "CpuBudgetMs is a generous quadratic (>= 90 x the measured linear cost): it separates exponential from "
+    "polynomial cost at 40..60 repetitions, it does not separate quadratic from cubic (the line-event growth does)",
 ]
 
 _E: Dict[str, Any] = {}
@@ -87,8 +120,34 @@ def env() -> Dict[str, Any]:
         registry.unregister(COMP)
     registry.register(COMP, VfProbeC12)
     _E.update(e)
-    _E["budget"] = BUDGET_S
+    _E.setdefault("budget", None)      # None: CpuBudgetMs of the specification; a number: fixed seconds
+    _E.setdefault("scale", 1.0)
+    _E["bound"] = spec_bound()
     return _E
+
+
+def spec_bound() -> Tuple[int, int]:
+    """(BudgetBaseMs, BudgetQuadDiv) of specs/AdversarialInputs.tla (TLC evaluates the same
+    definitions when it validates the recorded times in Trace_C12)."""
+    txt = (SPECS / "AdversarialInputs.tla").read_text()
+    m1 = re.search(r"^BudgetBaseMs == (\d+)\s*$", txt, re.M)
+    m2 = re.search(r"^BudgetQuadDiv == (\d+)\s*$", txt, re.M)
+    m3 = re.search(r"^CpuBudgetMs\(nchars\) == BudgetBaseMs \+ \(nchars \* nchars\) \\div BudgetQuadDiv\s*$", txt, re.M)
+    if not (m1 and m2 and m3):
+        raise MachineryError("cannot read the time bound from specs/AdversarialInputs.tla")
+    return int(m1.group(1)), int(m2.group(1))
+
+
+def budget_ms(nchars: int) -> int:
+    base, div = _E["bound"]
+    return base + nchars * nchars // div
+
+
+def budget_s(nchars: int) -> float:
+    fixed = _E.get("budget")
+    if fixed is not None:
+        return fixed
+    return budget_ms(nchars) / 1000.0 * _E.get("scale", 1.0)
 
 
 # ------------------------------------------------------------------ outcomes
@@ -100,24 +159,36 @@ def _alarm(signum, frame):
     raise _Timeout()
 
 
-def outcome(fn: Callable[[], Any]) -> str:
+def timed(fn: Callable[[], Any], nchars: int = 0) -> Tuple[str, int]:
+    """(outcome, CPU milliseconds) of fn() under the CPU budget of an input of nchars characters.
+    The timer counts CPU time of this process (ITIMER_PROF), so load on the machine does not
+    shorten the budget; the regex engine checks signals, so a runaway match is interrupted too."""
     from django.template import TemplateSyntaxError
-    budget = _E.get("budget", BUDGET_S)
+    budget = budget_s(nchars)
+    out, t0 = "hang", time.process_time()
     for attempt in (1, 2):
-        signal.setitimer(signal.ITIMER_REAL, budget * attempt)
+        t0 = time.process_time()
         try:
-            fn()
-            return "ok"
+            try:
+                signal.setitimer(signal.ITIMER_PROF, budget * attempt)
+                fn()
+                out = "ok"
+            finally:
+                signal.setitimer(signal.ITIMER_PROF, 0)
+            break
         except TemplateSyntaxError:
-            return "tse"
+            out = "tse"
+            break
         except _Timeout:
-            if attempt == 2:
-                return "hang"
+            out = "hang"            # again with the budget doubled
         except BaseException as ex:  # noqa: BLE001 - the class is the observation
-            return "exc:" + type(ex).__name__
-        finally:
-            signal.setitimer(signal.ITIMER_REAL, 0)
-    return "hang"
+            out = "exc:" + type(ex).__name__
+            break
+    return out, int((time.process_time() - t0) * 1000)
+
+
+def outcome(fn: Callable[[], Any], nchars: int = 0) -> str:
+    return timed(fn, nchars)[0]
 
 
 def channels(kind: str, text: str) -> List[Tuple[str, Callable[[], Any]]]:
@@ -131,7 +202,7 @@ def channels(kind: str, text: str) -> List[Tuple[str, Callable[[], Any]]]:
 
 
 def outcomes(kind: str, text: str) -> List[Tuple[str, str]]:
-    return [(name, outcome(fn)) for name, fn in channels(kind, text)]
+    return [(name, outcome(fn, len(text))) for name, fn in channels(kind, text)]
 
 
 TRANS_WORD = re.compile(r"""(?:^|\s)_\(["']""")
@@ -148,10 +219,10 @@ def finding_key(kind: str, channel: str, text: str, out: str) -> Optional[str]:
 
 
 # ------------------------------------------------------------------ workers
-def _init_worker(budget: float, limit_memory: bool = True) -> None:
+def _init_worker(budget: Optional[float] = None, limit_memory: bool = True) -> None:
     env()
     _E["budget"] = budget
-    signal.signal(signal.SIGALRM, _alarm)
+    signal.signal(signal.SIGPROF, _alarm)
     if limit_memory:        # only in forked workers: the main process still has to start JVMs
         try:
             resource.setrlimit(resource.RLIMIT_AS, (MEM_LIMIT, MEM_LIMIT))
@@ -160,54 +231,227 @@ def _init_worker(budget: float, limit_memory: bool = True) -> None:
     sys.setrecursionlimit(3000)
 
 
-def _work(job):
-    kind, items = job
+_SUP: Dict[str, Any] = {}
+_CLK = os.sysconf("SC_CLK_TCK")
+SLOW_KEEP = 8           # slowest inputs of a set handed to Trace_C12
+
+
+def _proc_cpu(pid: int) -> Optional[float]:
+    """CPU seconds (user + system) a process has used, from /proc/<pid>/stat."""
+    try:
+        with open(f"/proc/{pid}/stat") as f:
+            rest = f.read().rsplit(")", 1)[1].split()
+        return (int(rest[11]) + int(rest[12])) / _CLK
+    except (OSError, IndexError, ValueError):
+        return None
+
+
+def _run_range(a: int, b: int, wid: int, shared, hangs, cap: int, full: bool):
+    """Feed items[a:b] to the parsers of their kind.  shared[4*wid..]: index of the item being
+    parsed (-1: none), its budget in seconds, CPU and wall clock at its start - read by the
+    parent's watchdog."""
+    items = _SUP["items"]
     stats: Dict[str, int] = {}
-    bad = []
-    for syms in items:
+    bad, slow, rows, skipped = [], [], [], 0
+    worst = (0.0, 0, 0, 0, "")      # ratio, cpu ms, budget ms, item, channel
+    for g in range(a, b):
+        if hangs is not None and hangs.value >= cap:
+            skipped += 1
+            continue
+        kind, syms = items[g]
         text = "".join(syms)
-        for ch, out in outcomes(kind, text):
+        n = len(text)
+        chans, outs, cpus = [], [], []
+        for ch, fn in channels(kind, text):
+            if shared is not None:
+                shared[4 * wid + 1] = budget_s(n)
+                shared[4 * wid + 2] = time.process_time()
+                shared[4 * wid + 3] = time.monotonic()
+                shared[4 * wid] = g
+            out, ms = timed(fn, n)
+            if shared is not None:
+                shared[4 * wid] = -1
+            chans.append(ch)
+            outs.append(out)
+            cpus.append(ms)
             k = ch + ":" + out
             stats[k] = stats.get(k, 0) + 1
             if out not in ("ok", "tse"):
-                bad.append((syms, ch, out))
-    return stats, bad
+                bad.append((g, ch, out, ms))
+                if out == "hang" and hangs is not None:
+                    with hangs.get_lock():
+                        hangs.value += 1
+            ratio = ms / budget_ms(n)
+            if ratio > worst[0]:
+                worst = (ratio, ms, budget_ms(n), g, ch)
+        if full:
+            rows.append((g, chans, outs, cpus))
+        slow.append((max(cpus), g, chans, outs, cpus))
+        if len(slow) > 4 * SLOW_KEEP:
+            slow = sorted(slow, key=lambda r: (-r[0], r[1]))[:SLOW_KEEP]
+    slow = sorted(slow, key=lambda r: (-r[0], r[1]))[:SLOW_KEEP]
+    return {"a": a, "b": b, "stats": stats, "bad": bad, "slow": slow, "rows": rows, "skipped": skipped, "worst": worst}
+
+
+def _sup_main(wid: int, conn_in, conn_out, shared, hangs, cap: int, full: bool) -> None:
+    _init_worker(_E.get("budget"))
+    while True:
+        msg = conn_in.recv()
+        if msg is None:
+            return
+        conn_out.send(_run_range(msg[0], msg[1], wid, shared, hangs, cap, full))
+
+
+def supervised(items: List[Tuple[str, List[str]]], procs: int, label: str, full: bool = False,
+               cap: int = HANG_CAP) -> Dict[str, Any]:
+    """Run every (kind, symbols) item through its channels in forked, supervised workers.
+    Returns the merged statistics; `killed`: items whose parse could not be interrupted in-process
+    and whose worker the watchdog had to kill (or whose worker died)."""
+    env()
+    _SUP["items"] = items
+    chunk = max(1, min(2000, len(items) // (procs * 8) + 1))
+    ranges = deque((a, min(a + chunk, len(items))) for a in range(0, len(items), chunk))
+    merged: Dict[str, Any] = {"stats": {}, "bad": [], "slow": [], "rows": [], "skipped": 0, "killed": [],
+                              "worst": (0.0, 0, 0, 0, "")}
+
+    def merge(res):
+        for k, v in res["stats"].items():
+            merged["stats"][k] = merged["stats"].get(k, 0) + v
+        merged["bad"] += res["bad"]
+        merged["slow"] += res["slow"]
+        merged["rows"] += res["rows"]
+        merged["skipped"] += res["skipped"]
+        if res["worst"][0] > merged["worst"][0]:
+            merged["worst"] = res["worst"]
+
+    if procs <= 1:
+        _init_worker(_E.get("budget"), limit_memory=False)
+        for a, b in ranges:
+            merge(_run_range(a, b, 0, None, None, cap, full))
+    else:
+        ctx = mp.get_context("fork")
+        shared = ctx.RawArray("d", 4 * procs)
+        hangs = ctx.Value("i", 0)
+        workers: Dict[int, Dict[str, Any]] = {}
+
+        def spawn(wid: int) -> None:
+            shared[4 * wid] = -1
+            in_r, in_w = ctx.Pipe(duplex=False)
+            out_r, out_w = ctx.Pipe(duplex=False)
+            proc = ctx.Process(target=_sup_main, args=(wid, in_r, out_w, shared, hangs, cap, full), daemon=True)
+            proc.start()
+            in_r.close()
+            out_w.close()
+            workers[wid] = {"proc": proc, "to": in_w, "frm": out_r, "busy": None}
+
+        def lost(wid: int, how: str) -> None:
+            """The worker was killed / died while parsing item g: report g, requeue the rest of its range."""
+            w = workers[wid]
+            g = int(shared[4 * wid])
+            a, b = w["busy"]
+            w["proc"].kill()
+            w["proc"].join()
+            w["to"].close()
+            w["frm"].close()
+            if not (a <= g < b):
+                raise MachineryError(f"{label}: worker {how} outside a parse (range {a}..{b})")
+            merged["killed"].append((g, how))
+            with hangs.get_lock():
+                hangs.value += 1
+            for r in ((a, g), (g + 1, b)):
+                if r[0] < r[1]:
+                    ranges.append(r)
+            spawn(wid)
+
+        try:
+            for wid in range(min(procs, len(ranges))):
+                spawn(wid)
+            t_start = time.monotonic()
+            while ranges or any(w["busy"] for w in workers.values()):
+                for w in workers.values():
+                    if w["busy"] is None and ranges:
+                        r = ranges.popleft()
+                        w["to"].send(r)
+                        w["busy"] = r
+                conns = {w["frm"]: w for w in workers.values() if w["busy"]}
+                for c in mpc.wait(list(conns), timeout=0.25):
+                    try:
+                        merge(c.recv())
+                        conns[c]["busy"] = None
+                    except EOFError:
+                        pass                      # died: handled below
+                for wid, w in list(workers.items()):
+                    if not w["busy"]:
+                        continue
+                    if not w["proc"].is_alive():
+                        lost(wid, "died")
+                        continue
+                    g = int(shared[4 * wid])
+                    if g < 0:
+                        continue
+                    budget, cpu0, wall0 = shared[4 * wid + 1], shared[4 * wid + 2], shared[4 * wid + 3]
+                    cpu = _proc_cpu(w["proc"].pid)
+                    over = (cpu is not None and cpu - cpu0 > 4 * budget + 5) or time.monotonic() - wall0 > 60 * budget + 600
+                    if over and int(shared[4 * wid]) == g:
+                        lost(wid, "killed")
+                if time.monotonic() - t_start > 7200:
+                    raise MachineryError(f"{label}: worker pool did not finish within the hard limit")
+        finally:
+            for w in workers.values():
+                try:
+                    if w["proc"].is_alive() and not w["busy"]:
+                        w["to"].send(None)
+                except (OSError, ValueError):
+                    pass
+            for w in workers.values():
+                w["proc"].join(timeout=0.5 if w["busy"] else 5)
+                if w["proc"].is_alive():
+                    w["proc"].kill()
+                    w["proc"].join()
+    merged["bad"].sort()
+    merged["rows"].sort()
+    merged["slow"] = sorted(merged["slow"], key=lambda r: (-r[0], r[1]))[:SLOW_KEEP]
+    return merged
 
 
 def run_inputs(chk: Check, kind: str, items: List[List[str]], label: str, procs: int,
-               stop_after: Optional[int] = None) -> None:
-    """Feed every input (list of symbols) to the parsers of its kind; report inadmissible outcomes."""
+               stop_after: Optional[int] = None,
+               trec: Optional[Callable[[int], Dict[str, Any]]] = None) -> List[Dict[str, Any]]:
+    """Feed every input (list of symbols) to the parsers of its kind under the CPU budget; report
+    inadmissible outcomes.  Returns trace records (for Trace_C12) of the slowest inputs."""
     if not items:
         raise MachineryError(f"{label}: no inputs")
-    n = max(1, min(5000, len(items) // (procs * 4) + 1))
-    jobs = [(kind, items[i:i + n]) for i in range(0, len(items), n)]
-    budget = _E.get("budget", BUDGET_S)
-    if procs <= 1:
-        _init_worker(budget, limit_memory=False)
-        results = [_work(j) for j in jobs]
-    else:
-        with mp.get_context("fork").Pool(procs, initializer=_init_worker, initargs=(budget,)) as pool:
-            try:
-                results = pool.map_async(_work, jobs, chunksize=1).get(timeout=3600)
-            except mp.TimeoutError as ex:
-                raise MachineryError(f"{label}: worker pool did not finish within the hard limit") from ex
-    total: Dict[str, int] = {}
+    res = supervised([(kind, s) for s in items], procs, label)
     nbad = 0
-    for stats, bad in results:
-        for k, v in stats.items():
-            total[k] = total.get(k, 0) + v
-        for syms, ch, out in bad:
-            nbad += 1
-            if stop_after is not None and nbad > stop_after:
-                continue
-            text = "".join(syms)
-            chk.violation({"kind": "input", "input_kind": kind, "set": label, "syms": syms, "text": text, "channel": ch},
-                          {"expected": "ok or TemplateSyntaxError", "observed": out},
-                          key=finding_key(kind, ch, text, out))
-    chk.cov.setdefault("outcomes", {})[label] = dict(sorted(total.items()))
-    chk.add("inputs", len(items))
-    chk.add("inputs_nontrivial", sum(1 for s in items if len(s) >= 2))
-    chk.add("parser_runs", sum(total.values()))
+    reports = [(g, ch, out, f"cpu_ms={ms}") for g, ch, out, ms in res["bad"]]
+    reports += [(g, "?", "hang", f"worker {how}: the parse could not be interrupted") for g, how in res["killed"]]
+    for g, ch, out, note in sorted(reports):
+        nbad += 1
+        if stop_after is not None and nbad > stop_after:
+            continue
+        text = "".join(items[g])
+        chk.violation({"kind": "input", "input_kind": kind, "set": label, "syms": items[g], "text": text, "channel": ch},
+                      {"expected": "ok or TemplateSyntaxError within CpuBudgetMs(%d) = %d ms" % (len(text), budget_ms(len(text))),
+                       "observed": out, "note": note},
+                      key=finding_key(kind, ch, text, out))
+    chk.cov.setdefault("outcomes", {})[label] = dict(sorted(res["stats"].items()))
+    ratio, ms, bud, g, ch = res["worst"]
+    chk.cov.setdefault("time_bound", {})[label] = {
+        "max_cpu_over_budget": round(ratio, 4), "cpu_ms": ms, "budget_ms": bud, "channel": ch,
+        "chars": len("".join(items[g])), "text": "".join(items[g])[:80]}
+    if res["skipped"]:
+        chk.cov.setdefault("skipped_after_hang_cap", {})[label] = res["skipped"]
+    done = len(items) - res["skipped"]
+    chk.add("inputs", done)
+    chk.add("inputs_nontrivial", sum(1 for s in items if len(s) >= 2) if not res["skipped"] else done)
+    chk.add("parser_runs", sum(res["stats"].values()))
+    recs = []
+    for _, g, chans, outs, cpus in res["slow"]:
+        if any(o not in ("ok", "tse") for o in outs):
+            continue                      # reported above
+        r = trec(g) if trec else {"kind": "raw"}
+        recs.append(dict(r, syms=items[g], chan=chans, out=outs, cpu=cpus))
+    return recs
 
 
 # ------------------------------------------------------------------ TLC dumps
@@ -264,6 +508,8 @@ def _parse_value(v: str) -> Any:
         return d
     if re.fullmatch(r"-?\d+", v):
         return int(v)
+    if len(v) >= 2 and v[0] == '"' and v[-1] == '"':
+        return _unescape(v[1:-1])
     return v
 
 
@@ -299,6 +545,46 @@ def enumerate_mutants(bases: List[List[str]], w: Path, workers: int):
             seen.add(k)
             out.append(st["txt"])
     return out, r
+
+
+def _set_literal(xs) -> str:
+    return "{" + ", ".join(str(x) for x in xs) + "}"
+
+
+def enumerate_pumped(which: str, total: int, unit: int, suf: int, ks: List[int], w: Path, workers: int):
+    """Pumped cases [pre, u, suf, k] of MC_C12P (the states with k > 0)."""
+    cfg = w / f"mc12p_{which}.cfg"
+    cfg.write_text(f'SPECIFICATION Spec\nCONSTANTS\n  MaxTotal = {total}\n  MaxUnit = {unit}\n  MaxSuf = {suf}\n'
+                   f'  Ks = {_set_literal(ks)}\n  Which = "{which}"\nINVARIANT Shape\n')
+    dump = w / f"pumped_{which}"
+    r = tlc.require_ok(tlc.run("MC_C12P", str(cfg), workers=workers, extra=["-dump", str(dump)], timeout=3000),
+                       f"MC_C12P {which}")
+    states = read_dump(Path(str(dump) + ".dump"))
+    if len(states) != r.distinct:
+        raise MachineryError(f"MC_C12P {which}: dump has {len(states)} states, TLC reports {r.distinct}")
+    cases = [{"alpha": which, "pre": st["pre"], "u": st["u"], "suf": st["suf"], "k": st["k"]} for st in states if st["k"] > 0]
+    cases.sort(key=lambda c: (c["k"], len(c["pre"]) + len(c["u"]) + len(c["suf"]), c["pre"], c["u"], c["suf"]))
+    return cases, r
+
+
+def pump_text(c: Dict[str, Any]) -> List[str]:
+    """The driver's own pre . u^k . suf (TLC checks it against PumpText on the recorded traces)."""
+    return list(c["pre"]) + list(c["u"]) * c["k"] + list(c["suf"])
+
+
+def enumerate_libtags(maxwords: int, w: Path, workers: int):
+    """Library-tag cases of MC_C12T (the states with form # "none"); `src` comes from TLC."""
+    cfg = w / "mc12t.cfg"
+    cfg.write_text(f"SPECIFICATION Spec\nCONSTANTS\n  MaxWords = {maxwords}\nINVARIANT Shape\n")
+    dump = w / "libtags"
+    r = tlc.require_ok(tlc.run("MC_C12T", str(cfg), workers=workers, extra=["-dump", str(dump)], timeout=3000), "MC_C12T")
+    states = read_dump(Path(str(dump) + ".dump"))
+    if len(states) != r.distinct:
+        raise MachineryError(f"MC_C12T: dump has {len(states)} states, TLC reports {r.distinct}")
+    cases = [{"tag": st["tag"], "words": st["words"], "form": st["form"], "wrap": st["wrap"], "src": st["src"]}
+             for st in states if st["form"] != "none"]
+    cases.sort(key=lambda c: (c["tag"], len(c["words"]), c["words"], c["form"], c["wrap"]))
+    return cases, r
 
 
 # ------------------------------------------------------------------ valid texts (MC_C02 export)
@@ -468,10 +754,13 @@ def growth(chk: Check, kind: str, units: List[Dict[str, Any]], n: int, procs: in
     sz = max(1, len(units) // (procs * 4) + 1)
     jobs = [(kind, units[i:i + sz], n) for i in range(0, len(units), sz)]
     if procs <= 1:
-        _init_worker(_E.get("budget", BUDGET_S), limit_memory=False)
-        results = [_grow_work(j) for j in jobs]
+        _init_worker(GROWTH_BUDGET_S, limit_memory=False)
+        try:
+            results = [_grow_work(j) for j in jobs]
+        finally:
+            _E["budget"] = None
     else:
-        with mp.get_context("fork").Pool(procs, initializer=_init_worker, initargs=(60.0,)) as pool:
+        with mp.get_context("fork").Pool(procs, initializer=_init_worker, initargs=(GROWTH_BUDGET_S,)) as pool:
             results = pool.map(_grow_work, jobs, chunksize=1)
     recs = [r for res in results for r in res]
     worst = chk.cov.setdefault("growth_worst", {})
@@ -508,7 +797,7 @@ def trace_validate(chk: Check, recs: List[Dict[str, Any]], what: str, w: Path) -
         return
     for i, r in enumerate(recs):
         r["id"] = i + 1
-    cfg = w / "trace12.cfg"
+    cfg = w / f"trace12_{what}.cfg"
     cfg.write_text("SPECIFICATION TrSpec\n")
     f = w / f"traces12_{what}.ndjson"
     tlc.write_ndjson(f, recs)
@@ -534,11 +823,17 @@ def trace_validate(chk: Check, recs: List[Dict[str, Any]], what: str, w: Path) -
             continue                      # already reported by growth() from the same numbers
         text = "".join(rec["syms"])
         chs = rec["chan"]
-        for ch, out in zip(chs, rec["out"]):
-            if out not in ("ok", "tse"):
-                chk.violation({"kind": "trace", "input_kind": rec["kind"], "syms": rec["syms"], "text": text,
-                               "channel": ch}, {"verdict": why, "observed": out},
-                              key=finding_key("tpl" if rec["kind"] == "tpl" else "tag", ch, text, out))
+        ik = "tpl" if chs == ["template"] else "tag"
+        reported = False
+        for ch, out, ms in zip(chs, rec["out"], rec.get("cpu") or [0] * len(chs)):
+            if out not in ("ok", "tse") or (why == "bad:time" and ms > budget_ms(len(text))):
+                reported = True
+                chk.violation({"kind": "trace", "input_kind": ik, "trace_kind": rec["kind"], "syms": rec["syms"],
+                               "text": text, "channel": ch},
+                              {"verdict": why, "observed": out, "cpu_ms": ms, "budget_ms": budget_ms(len(text))},
+                              key=finding_key(ik, ch, text, out))
+        if not reported:
+            raise MachineryError(f"Trace_C12 rejects record {tid} ({why}) but no channel explains it: {rec}")
     chk.add("traces_validated_against_impl", len(recs))
 
 
@@ -547,9 +842,29 @@ TPL_SYMS = ["{% vfprobe ", "{% endvfprobe %}", "{% component 'vf_probe_c12' ", "
             '"', "'", "\\", "\n", "%", "a "]
 
 
-def record_random(header, seed: int, n_tag: int, n_tpl: int, n_mut: int) -> List[Dict[str, Any]]:
+LIB_TAGS = ["component", "slot", "fill", "provide", "html_attrs", "component_css_dependencies",
+            "component_js_dependencies", "vfprobe", "vf_short_c02"]
+LEAD_WORDS = ["'vf_probe_c12'", '"n"', '""', '"a=b"', "a", "1", "a|upper", '_("x")',
+              'k="v"', "name='vf_probe_c12'", "name=a", "name=", "data='x'", "attrs:class=cls", "k=...d",
+              "only", "default", "required", "...d", "**d", '...{"a": 1}', "[1]", "{}", "=", "=v", "k=", ":", "/"]
+FORMS = ["inline", "block", "open"]
+WRAPS = ["bare", "comp"]
+
+
+def lib_source(tag: str, words: List[str], form: str, wrap: str) -> List[str]:
+    """The driver's own rendering of a library-tag case; TLC checks it against LibSource."""
+    src = ["{% ", tag]
+    for wd in words:
+        src += [" ", wd]
+    src += ([" /"] if form == "inline" else []) + [" %}"]
+    if form == "block":
+        src += ["x", "{% ", "end" + tag, " %}"]
+    return ["{% component 'vf_probe_c12' %}"] + src + ["{% endcomponent %}"] if wrap == "comp" else src
+
+
+def gen_random(header, seed: int, n_tag: int, n_tpl: int, n_mut: int, n_pump: int, n_lib: int) -> List[Dict[str, Any]]:
+    """Inputs of the seeded random driver (no outcomes yet); `ik` = channel family of the input."""
     env()
-    _init_worker(_E.get("budget", BUDGET_S), limit_memory=False)
     c02.set_ctx(header["ctx"])
     rnd = random.Random(seed)
     recs: List[Dict[str, Any]] = []
@@ -558,12 +873,10 @@ def record_random(header, seed: int, n_tag: int, n_tpl: int, n_mut: int) -> List
         syms = [rnd.choice(TAG_SYMS) for _ in range(rnd.randint(6, 40))]
         if rnd.random() < 0.5:
             syms = [s for s in syms if s != "%}"]
-        o = outcomes("tag", "".join(syms))
-        recs.append({"kind": "tag", "syms": syms, "chan": [c for c, _ in o], "out": [x for _, x in o]})
+        recs.append({"kind": "tag", "ik": "tag", "syms": syms})
     for _ in range(n_tpl):
         syms = [rnd.choice(TPL_SYMS) for _ in range(rnd.randint(4, 24))]
-        o = outcomes("tpl", "".join(syms))
-        recs.append({"kind": "tpl", "syms": syms, "chan": [c for c, _ in o], "out": [x for _, x in o]})
+        recs.append({"kind": "tpl", "ik": "tpl", "syms": syms})
     g = c02.Gen(rnd, header)
     for _ in range(n_mut):
         args = g.args(header["strtab"], rnd.randint(1, 3))
@@ -579,10 +892,54 @@ def record_random(header, seed: int, n_tag: int, n_tpl: int, n_mut: int) -> List
         else:
             m = {"kind": "rep", "p": rnd.randint(1, len(base)), "c": rnd.choice(TAG_SYMS)}
             syms = base[:m["p"] - 1] + [m["c"]] + base[m["p"]:]
-        o = outcomes("tag", "".join(syms))
-        recs.append({"kind": "mut", "args": args, "style": st, "m": m, "syms": syms,
-                     "chan": [c for c, _ in o], "out": [x for _, x in o]})
+        recs.append({"kind": "mut", "ik": "tag", "args": args, "style": st, "m": m, "syms": syms})
+    rnd = random.Random(seed + 1)       # the new kinds draw from their own stream: the ones above stay as they were
+    g = c02.Gen(rnd, header)
+    for i in range(n_pump):
+        if i % 3 == 2:                  # a substring of a deep valid text pumped in place, whole or cut off behind it
+            args = g.args(header["strtab"], rnd.randint(1, 3))
+            st = g.style()
+            base = c02.text_of(args, st, header["strtab"], header["tpltab"])
+            lo = rnd.randint(1, len(base))
+            hi = min(len(base), lo + rnd.randint(0, 3))
+            k, cut = rnd.randint(20, 60), rnd.random() < 0.5
+            syms = base[:lo - 1] + base[lo - 1:hi] * k + ([] if cut else base[hi:])
+            recs.append({"kind": "pmut", "ik": "tag", "args": args, "style": st, "i": lo, "j": hi, "k": k, "cut": cut,
+                         "syms": syms})
+            continue
+        alpha = "tag" if i % 3 == 0 else "tpl"
+        A, lp, lu, ls, kmax = (TAG_SYMS, 4, 4, 3, 60) if alpha == "tag" else (TPL_SYMS, 3, 2, 2, 48)
+        c = {"alpha": alpha, "pre": [rnd.choice(A) for _ in range(rnd.randint(0, lp))],
+             "u": [rnd.choice(A) for _ in range(rnd.randint(1, lu))],
+             "suf": [rnd.choice(A) for _ in range(rnd.randint(0, ls))], "k": rnd.randint(20, kmax)}
+        recs.append(dict(c, kind="pump", ik=alpha, syms=pump_text(c)))
+    for _ in range(n_lib):
+        c = {"tag": rnd.choice(LIB_TAGS), "words": [rnd.choice(LEAD_WORDS) for _ in range(rnd.randint(3, 5))],
+             "form": rnd.choice(FORMS), "wrap": rnd.choice(WRAPS)}
+        recs.append(dict(c, kind="lib", ik="tpl", syms=lib_source(**c)))
     return recs
+
+
+def record_random(chk: Check, recs: List[Dict[str, Any]], procs: int) -> List[Dict[str, Any]]:
+    """Run the driver's inputs on the real parsers (supervised workers) and attach what happened:
+    channels, outcomes, CPU milliseconds.  Inputs skipped after the hang cap are dropped."""
+    res = supervised([(r["ik"], r["syms"]) for r in recs], procs, "random", full=True)
+    out = []
+    for g, chans, outs, cpus in res["rows"]:
+        r = {k: v for k, v in recs[g].items() if k != "ik"}
+        out.append(dict(r, chan=chans, out=outs, cpu=cpus))
+    for g, how in res["killed"]:
+        r = recs[g]
+        text = "".join(r["syms"])
+        chk.violation({"kind": "trace", "input_kind": r["ik"], "syms": r["syms"], "text": text, "channel": "?"},
+                      {"observed": "hang", "note": f"worker {how}: the parse could not be interrupted"})
+    if res["skipped"]:
+        chk.cov.setdefault("skipped_after_hang_cap", {})["random"] = res["skipped"]
+    ratio, ms, bud, g, ch = res["worst"]
+    chk.cov.setdefault("time_bound", {})["random"] = {
+        "max_cpu_over_budget": round(ratio, 4), "cpu_ms": ms, "budget_ms": bud, "channel": ch,
+        "chars": len("".join(recs[g]["syms"])), "text": "".join(recs[g]["syms"])[:80]}
+    return out
 
 
 def roundtrip_traces(chk: Check, header, seed: int, n: int, w: Path) -> None:
@@ -632,67 +989,106 @@ def roundtrip_traces(chk: Check, header, seed: int, n: int, w: Path) -> None:
 
 # ------------------------------------------------------------------ the check
 def _phase(chk: Check, name: str, t0: float) -> float:
-    import time
     now = time.time()
     chk.cov.setdefault("phase_wall_s", {})[name] = round(now - t0, 1)
     return now
 
 
-def core(chk: Check, tier: str, procs: int, maxlen: int, n_bases: int, grow_n: int, n_rand: Tuple[int, int, int, int],
-         c02_tier: str, rt_k: int, stop_after: Optional[int] = None, cache: Optional[Dict[str, Any]] = None) -> None:
-    import time
+def core(chk: Check, tier: str, procs: int, maxlen: int, n_bases: int, grow_n: int, n_rand: Tuple[int, ...],
+         c02_tier: str, rt_k: int, pump: Tuple[int, int, int, List[int]], lib_words: int,
+         stop_after: Optional[int] = None, cache: Optional[Dict[str, Any]] = None) -> None:
     env()
     cache = cache if cache is not None else {}
     w = workdir("c12")
     t0 = time.time()
     if "tag" not in cache:
         from concurrent.futures import ThreadPoolExecutor
-        with ThreadPoolExecutor(max_workers=3) as ex:
+        with ThreadPoolExecutor(max_workers=7) as ex:
+            f_val = ex.submit(valid_cases, c02_tier, w, chk.seed)
             f_tag = ex.submit(enumerate_strings, "tag", maxlen, w, 4)
             f_tpl = ex.submit(enumerate_strings, "tpl", maxlen, w, 2)
-            f_val = ex.submit(valid_cases, c02_tier, w, chk.seed)
-            cache["tag"], cache["tpl"], cache["valid"] = f_tag.result(), f_tpl.result(), f_val.result()
-        header, cases, _ = cache["valid"]
-        rnd = random.Random(chk.seed * 4409 + 12)
-        picks = rnd.sample(range(len(cases)), min(n_bases, len(cases)))
-        bases = [cases[i]["texts"][rnd.randrange(len(cases[i]["texts"]))] for i in sorted(picks)]
-        cache["mut"] = enumerate_mutants(bases, w, 4)
+            f_ptag = ex.submit(enumerate_pumped, "tag", *pump, w, 2)
+            f_ptpl = ex.submit(enumerate_pumped, "tpl", *pump, w, 2)
+            f_lib = ex.submit(enumerate_libtags, lib_words, w, 2)
+            cache["valid"] = f_val.result()
+            header, cases, _ = cache["valid"]
+            rnd = random.Random(chk.seed * 4409 + 12)
+            picks = rnd.sample(range(len(cases)), min(n_bases, len(cases)))
+            bases = [cases[i]["texts"][rnd.randrange(len(cases[i]["texts"]))] for i in sorted(picks)]
+            f_mut = ex.submit(enumerate_mutants, bases, w, 4)      # needs the valid texts only
+            cache["tag"], cache["tpl"], cache["mut"] = f_tag.result(), f_tpl.result(), f_mut.result()
+            cache["ptag"], cache["ptpl"], cache["lib"] = f_ptag.result(), f_ptpl.result(), f_lib.result()
         cache["nbases"] = len(bases)
     t0 = _phase(chk, "tlc_enumeration", t0)
     tag_strings, r_tag = cache["tag"]
     tpl_strings, r_tpl = cache["tpl"]
     header, cases, st02 = cache["valid"]
     mutants, r_mut = cache["mut"]
-    chk.add("states", r_tag.distinct + r_tpl.distinct + r_mut.distinct + st02)
-    chk.add("transitions", r_tag.generated + r_tpl.generated + r_mut.generated + st02)
+    (ptag, r_ptag), (ptpl, r_ptpl), (lib, r_lib) = cache["ptag"], cache["ptpl"], cache["lib"]
+    rs = [r_tag, r_tpl, r_mut, r_ptag, r_ptpl, r_lib]
+    chk.add("states", sum(r.distinct for r in rs) + st02)
+    chk.add("transitions", sum(r.generated for r in rs) + st02)
+
+    def distinct_texts(cs: List[Dict[str, Any]]) -> Tuple[List[Dict[str, Any]], List[List[str]]]:
+        seen, keep, texts = set(), [], []      # different (pre, u, suf) can spell the same text
+        for c in cs:
+            t = pump_text(c)
+            key = "".join(t)
+            if key not in seen:
+                seen.add(key)
+                keep.append(c)
+                texts.append(t)
+        return keep, texts
+
+    ptag_c, ptag_t = distinct_texts(ptag)
+    ptpl_c, ptpl_t = distinct_texts(ptpl)
     chk.cov["input_sets"] = {"tag_strings": len(tag_strings), "tpl_strings": len(tpl_strings),
-                             "mutation_bases": cache["nbases"], "mutants": len(mutants), "valid_texts_cases": len(cases)}
-    run_inputs(chk, "tag", tag_strings, f"tag<= {maxlen}", procs, stop_after)
-    run_inputs(chk, "tpl", tpl_strings, f"tpl<= {maxlen}", procs, stop_after)
-    run_inputs(chk, "tag", mutants, "mutants", procs, stop_after)
+                             "mutation_bases": cache["nbases"], "mutants": len(mutants), "valid_texts_cases": len(cases),
+                             "pumped_tag_cases": len(ptag), "pumped_tag_texts": len(ptag_t),
+                             "pumped_tpl_cases": len(ptpl), "pumped_tpl_texts": len(ptpl_t),
+                             "pump": {"max_total": pump[0], "max_unit": pump[1], "max_suf": pump[2], "k": pump[3]},
+                             "library_tag_sources": len(lib), "library_tag_max_words": lib_words}
+    slow = run_inputs(chk, "tag", tag_strings, f"tag<= {maxlen}", procs, stop_after, lambda g: {"kind": "tag"})
+    slow += run_inputs(chk, "tpl", tpl_strings, f"tpl<= {maxlen}", procs, stop_after, lambda g: {"kind": "tpl"})
+    slow += run_inputs(chk, "tag", mutants, "mutants", procs, stop_after)
     chk.sample({"tag_string": "".join(tag_strings[len(tag_strings) // 2]), "tpl_string": "".join(tpl_strings[len(tpl_strings) // 3]),
                 "mutant": "".join(mutants[len(mutants) // 2])})
     t0 = _phase(chk, "inputs", t0)
+    slow += run_inputs(chk, "tag", ptag_t, "pumped-tag", procs, stop_after, lambda g: dict(ptag_c[g], kind="pump"))
+    slow += run_inputs(chk, "tpl", ptpl_t, "pumped-tpl", procs, stop_after, lambda g: dict(ptpl_c[g], kind="pump"))
+    t0 = _phase(chk, "pumped", t0)
+    slow += run_inputs(chk, "tpl", [c["src"] for c in lib], "library-tags", procs, stop_after,
+                       lambda g: {"kind": "lib", **{k: lib[g][k] for k in ("tag", "words", "form", "wrap")}})
+    chk.sample({"pumped": "".join(ptag_t[len(ptag_t) // 2])[:60] + "...", "pumped_tpl": "".join(ptpl_t[len(ptpl_t) // 2])[:60] + "...",
+                "library_tag": "".join(lib[len(lib) // 2]["src"])})
+    t0 = _phase(chk, "library_tags", t0)
     roundtrip_all(chk, header, cases, procs, rt_k)
     t0 = _phase(chk, "roundtrip", t0)
     grow = growth(chk, "tag", units_from(tag_strings), grow_n, procs)
     grow += growth(chk, "tpl", units_from(tpl_strings), grow_n, procs)
     t0 = _phase(chk, "growth", t0)
     # code -> spec
-    n_tag, n_tpl, n_mut, n_rt = n_rand
-    recs = record_random(header, chk.seed * 9173 + 12, n_tag, n_tpl, n_mut)
-    trace_validate(chk, recs, "random", w)
-    trace_validate(chk, [dict(g, u=list(g["u"])) for g in grow], "growth", w)
-    roundtrip_traces(chk, header, chk.seed * 3571 + 12, n_rt, w)
+    n_tag, n_tpl, n_mut, n_rt, n_pump, n_lib = n_rand
+    recs = record_random(chk, gen_random(header, chk.seed * 9173 + 12, n_tag, n_tpl, n_mut, n_pump, n_lib), procs)
+    chk.add("slowest_inputs_validated", len(slow))
+    from concurrent.futures import ThreadPoolExecutor
+    with ThreadPoolExecutor(max_workers=2) as ex:       # the two TLC runs wait for their JVMs meanwhile
+        futs = [ex.submit(trace_validate, chk, recs + slow, "random", w),
+                ex.submit(trace_validate, chk, [dict(g, u=list(g["u"])) for g in grow], "growth", w)]
+        roundtrip_traces(chk, header, chk.seed * 3571 + 12, n_rt, w)
+        for f in futs:
+            f.result()
     _phase(chk, "trace_validation", t0)
 
 
 def run(tier: str) -> int:
     chk = Check(PID, tier, "exploration")
     if tier == "quick":
-        core(chk, tier, procs=8, maxlen=4, n_bases=120, grow_n=8, n_rand=(3000, 1500, 600, 150), c02_tier="selftest", rt_k=3)
+        core(chk, tier, procs=8, maxlen=4, n_bases=120, grow_n=8, n_rand=(3000, 1500, 600, 150, 900, 600),
+             c02_tier="selftest", rt_k=3, pump=(3, 3, 1, [48]), lib_words=2)
     else:
-        core(chk, tier, procs=8, maxlen=5, n_bases=800, grow_n=32, n_rand=(30000, 15000, 6000, 1500), c02_tier="quick", rt_k=6)
+        core(chk, tier, procs=8, maxlen=5, n_bases=800, grow_n=32, n_rand=(30000, 15000, 6000, 1500, 9000, 6000),
+             c02_tier="quick", rt_k=6, pump=(4, 2, 1, [56]), lib_words=3)
     chk.cov["evaluations"] = chk.cov["inputs"] + chk.cov["roundtrips"] + chk.cov["growth_measurements"] \
         + chk.cov["traces_validated_against_impl"]
     chk.cov["distinct_nontrivial"] = chk.cov["inputs_nontrivial"]
@@ -704,15 +1100,17 @@ def run(tier: str) -> int:
 
 def replay(path: str) -> int:
     env()
-    _init_worker(BUDGET_S, limit_memory=False)
+    _init_worker(None, limit_memory=False)
     d = json.load(open(path))
     case = d["case"]
     kind = case.get("kind")
     if kind in ("input", "trace"):
         ik = "tpl" if case.get("input_kind") == "tpl" else "tag"
-        res = outcomes(ik, case["text"])
-        print(json.dumps({"text": case["text"], "outcomes": res}, indent=1))
-        return 1 if any(o not in ("ok", "tse") for c, o in res if c == case.get("channel")) else 0
+        text = case["text"]
+        res = [(name,) + timed(fn, len(text)) for name, fn in channels(ik, text)]
+        print(json.dumps({"text": text, "chars": len(text), "cpu_budget_ms": budget_ms(len(text)),
+                          "outcomes [channel, outcome, cpu ms]": res}, indent=1))
+        return 1 if any(o not in ("ok", "tse") for c, o, _ in res if case.get("channel") in (c, "?")) else 0
     if kind in ("roundtrip", "roundtrip-trace"):
         c02.set_ctx(case["ctx"])
         bad = roundtrip(case["text"], case["text"].rstrip().endswith("/"))
@@ -741,6 +1139,13 @@ def selftest(tier: str) -> int:
 
     @contextmanager
     def patch(obj, name, new):
+        if isinstance(obj, dict):
+            old, obj[name] = obj[name], new
+            try:
+                yield
+            finally:
+                obj[name] = old
+            return
         old = getattr(obj, name)
         setattr(obj, name, new)
         try:
@@ -826,8 +1231,55 @@ def selftest(tier: str) -> int:
         down(150 * text.count("["))
         return orig_parse_tag(text, parser)
 
+    # the tag lexer matching a whole string literal - both quotes and the content - with one pattern:
+    # the alternatives `\\.` and `[^"]` overlap, so an UNTERMINATED string makes the engine try every
+    # split of its backslashes (exponential in C code: invisible to line events, counted by CPU time)
+    whole_string = {q: re.compile(q + r"(?:\\.|[^" + q + "])*" + q) for q in "'\""}
+
+    def whole_string_regex(text, lineno, start_index):
+        for i, c in enumerate(text):
+            if c in whole_string:
+                whole_string[c].match(text, i)      # the cost of the match is the mutation
+                break
+        return orig_detail(text, lineno, start_index)
+
+    import django_components.tag_formatter as tfm
+    from django.template import TemplateSyntaxError
+
+    def formatter_indexes_name_kwarg(self, tokens):
+        # ComponentFormatter.parse with the `name=` lookup written as a list comprehension that is
+        # indexed unconditionally: IndexError when the first word has `=` and there is no name=
+        tag, *args = tokens
+        if not args:
+            raise TemplateSyntaxError("Component tag did not receive tag name")
+        if "=" in args[0]:
+            names = [a for a in args if a.startswith("name=")]
+            comp_name = names[0][5:]
+            if len(names) > 1:
+                raise TemplateSyntaxError("'name' kwarg was defined more than once.")
+            final_args = [a for a in args if a not in names]
+        else:
+            comp_name, final_args = args[0], args[1:]
+        if not comp_name:
+            raise TemplateSyntaxError("Component name must be a non-empty quoted string, e.g. 'my_comp'")
+        if not tfm.is_str_wrapped_in_quotes(comp_name):
+            raise TemplateSyntaxError(f"Component name must be a string 'literal', got: {comp_name}")
+        return tfm.TagResult(comp_name[1:-1], final_args)
+
+    from django_components.templatetags import component_tags
+    lib_tags = component_tags.register.tags       # what Parser.__init__ copies its tag table from
+    orig_slot_tag = lib_tags["slot"]
+
+    def slot_peeks_first_word(parser, token):
+        # {% slot %} looking at its first argument before the generic parser has validated the tag
+        token.contents.split()[1]
+        return orig_slot_tag(parser, token)
+
     probes = [
         ("value-error-instead-of-syntax-error", many((tp.TagValuePart, "__post_init__", post_init_value_error))),
+        ("whole-string-regex-backtracks-on-unterminated-string", many((tpar, "_detailed_tag_parser", whole_string_regex))),
+        ("formatter-indexes-missing-name-kwarg", many((tfm.ComponentFormatter, "parse", formatter_indexes_name_kwarg))),
+        ("slot-tag-peeks-at-missing-first-word", many((lib_tags, "slot", slot_peeks_first_word))),
         ("hang-on-trailing-backslash", many((tpar, "_detailed_tag_parser", hang_on_trailing_backslash))),
         ("list-spread-prefix-lost-in-serialisation", many((tp.TagValueStruct, "serialize", list_spread_prefix_lost))),
         ("dict-spread-prefix-lost-in-serialisation", many((tp.TagValueStruct, "serialize", dict_spread_prefix_lost))),
@@ -838,11 +1290,11 @@ def selftest(tier: str) -> int:
     cache: Dict[str, Any] = {}
 
     def body(chk: Check) -> None:
-        _E["budget"] = 0.4
+        _E["scale"] = 0.4
         try:
-            core(chk, "quick", procs=4, maxlen=3, n_bases=25, grow_n=6, n_rand=(300, 150, 100, 40),
-                 c02_tier="selftest", rt_k=2, stop_after=50, cache=cache)
+            core(chk, "quick", procs=4, maxlen=3, n_bases=25, grow_n=6, n_rand=(300, 150, 100, 40, 150, 100),
+                 c02_tier="selftest", rt_k=2, pump=(2, 2, 1, [40]), lib_words=1, stop_after=50, cache=cache)
         finally:
-            _E["budget"] = BUDGET_S
+            _E["scale"] = 1.0
 
     return run_probes(PID, probes, body)
